@@ -112,7 +112,7 @@ func runCase(dir string, n int, line string) (res string) {
 	ctx := context.Background()
 	var addr string
 	switch transport {
-	case "unixfs", "bridge", "proxy1", "proxyR":
+	case "unixfs", "bridge", "proxy1", "proxyR", "proxyP":
 		addr = fmt.Sprintf("unix:%s/e%d", dir, n)
 	case "unixabs":
 		addr = fmt.Sprintf("unix:@verif-e2e-%d-%d", os.Getpid(), n)
@@ -153,12 +153,19 @@ func runCase(dir string, n int, line string) (res string) {
 				}
 				pump := func(dst, src net.Conn, seed uint32) {
 					buf := make([]byte, 1<<16)
-					for {
+					for msg := 0; ; msg++ {
 						k, err := src.Read(buf)
 						b := buf[:k]
 						for len(b) > 0 {
 							sz := 1
-							if transport != "proxy1" {
+							if transport == "proxyP" {
+								// pauses: the first message passes untouched, later ones arrive in three parts 150 ms apart
+								sz = len(b)
+								if msg > 0 && k > 2 {
+									sz = (k + 2) / 3
+									time.Sleep(150 * time.Millisecond)
+								}
+							} else if transport != "proxy1" {
 								seed = seed*1664525 + 1013904223
 								sz = 1 + int(seed>>16)%(1+int(seed>>8)%9000)
 							}
@@ -196,11 +203,24 @@ func runCase(dir string, n int, line string) (res string) {
 	var resolver *varlink.Resolver
 	var out []string
 	stop := false
-	for _, f := range ops {
+	// behind the pausing proxy the first operation runs under a short deadline (and completes well within it), all later ones
+	// under contexts without a deadline (a watchdog cancels them after 3 s): a pause is then never a reason to fail
+	opTimeout := func(i int) (context.Context, context.CancelFunc) {
+		if transport != "proxyP" {
+			return context.WithTimeout(ctx, 700*time.Millisecond)
+		}
+		if i == 0 {
+			return context.WithTimeout(ctx, 200*time.Millisecond)
+		}
+		c, cf := context.WithCancel(ctx)
+		t := time.AfterFunc(3*time.Second, cf)
+		return c, func() { t.Stop(); cf() }
+	}
+	for opi, f := range ops {
 		if stop {
 			break
 		}
-		cctx, cancel := context.WithTimeout(ctx, 700*time.Millisecond)
+		cctx, cancel := opTimeout(opi)
 		switch f[0] {
 		case "call":
 			flags, _ := strconv.ParseUint(f[1], 10, 64)
@@ -225,7 +245,7 @@ func runCase(dir string, n int, line string) (res string) {
 			parts := []string{"send=ok"}
 			for i := 0; i < nrecv; i++ {
 				var raw json.RawMessage
-				rctx, rcancel := context.WithTimeout(ctx, 700*time.Millisecond)
+				rctx, rcancel := opTimeout(opi)
 				fl, err := recv(rctx, &raw)
 				rcancel()
 				if err != nil {
@@ -261,6 +281,29 @@ func runCase(dir string, n int, line string) (res string) {
 					ps = "R" + vt.Hx(raw)
 				}
 				out = append(out, "call=ok "+ps)
+			}
+		case "typedcall":
+			// a caller with a typed reply struct whose field names also occur in error parameters, with other types:
+			// an error reply must arrive as the error, whatever the reply struct looks like
+			var typed struct {
+				A          int64          `json:"a"`
+				B          []int          `json:"b"`
+				K          map[string]int `json:"k"`
+				Method     int            `json:"method"`
+				Parameters bool           `json:"parameters"`
+				Interface  int            `json:"interface"`
+				Parameter  int            `json:"parameter"`
+				Fallback   bool           `json:"fallback"`
+			}
+			err := conn.Call(cctx, string(vt.Unhex(f[1])), hs.ParseValue(f[2]), &typed)
+			if err != nil {
+				c := classify(err)
+				out = append(out, "tcall="+c)
+				if stops(c) {
+					stop = true
+				}
+			} else {
+				out = append(out, "tcall=ok")
 			}
 		case "getinfo":
 			var v, p, ver, u string
